@@ -418,6 +418,8 @@ func NewDecoder(n int, sep string, r io.Reader) (sts.PayloadDecoder, error) {
 		stream: r,
 	}
 	pr, pw := io.Pipe()
+	// Unblocks the copier below if decoding gives up before the header is used up
+	defer pr.Close()
 	go func() {
 		if n > 0 {
 			_, _ = io.CopyN(pw, r, int64(n))
@@ -425,9 +427,24 @@ func NewDecoder(n int, sep string, r io.Reader) (sts.PayloadDecoder, error) {
 			// When no length provided, assume the meta is the entire payload
 			_, _ = io.Copy(pw, r)
 		}
+		// Without this a header that ends before its announced length (or a
+		// stream that ends inside it) leaves the decoder waiting forever
+		pw.Close()
 	}()
 	jr := json.NewDecoder(pr)
 	err = jr.Decode(&binReader.meta)
+	if err == nil && n > 0 {
+		// The announced length has to be exactly that of the header: whatever is
+		// left of it are bytes of the first part, which would be lost to it and
+		// shift every part that follows
+		var rest []byte
+		rest, err = io.ReadAll(io.MultiReader(jr.Buffered(), pr))
+		if err == nil && len(strings.TrimSpace(string(rest))) > 0 {
+			err = fmt.Errorf(
+				"payload header is shorter than announced (%d of %d bytes left over)",
+				len(rest), n)
+		}
+	}
 	if sep != "" {
 		for _, part := range binReader.meta {
 			part.Name = filepath.Join(strings.Split(part.Name, sep)...)
